@@ -72,6 +72,9 @@ def work(tier, seed):
         items.append({"kind": "proportion_sizes", "part": part, "parts": 8})
     for sizes in ([40000, 50], [300, 66000], [1000, 1000]) + (([70000, 70000],) if tier == "thorough" else ()):
         items.append({"kind": "large_real", "sizes": list(sizes)})
+    # the same samples reached through bootstrap_metric / bootstrap_ci, and option strings held in every way
+    for sizes in ([3, 4], [150, 130], [100, 260], [99, 150]):
+        items.append({"kind": "entry_points", "sizes": list(sizes)})
     for hp in b["switch_sizes"]:
         for hn in b["switch_sizes"]:
             for smoothing in (False, True):
@@ -240,6 +243,8 @@ def run(item, ctx, tier, seed):
         return _run_two_samples(item, ctx)
     if item["kind"] == "proportion_sizes":
         return _run_proportion_sizes(item, ctx, tier)
+    if item["kind"] == "entry_points":
+        return _run_entry_points(item, ctx, seed)
     if item["kind"] == "large_real":
         return _run_large_real(item, ctx, seed)
 
@@ -603,6 +608,80 @@ def _run_proportion_sizes(item, ctx, tier):
                 ctx.fail("every-source-score-reachable", dict(case, bound="default run + one deviation (first/last answer) at 8 choice points"),
                          observed=f"never drawn: {missing}", expected="each extreme score drawn in at least one explored run")
     ctx.sample({"kind": "proportion_sizes", "ratios": len(ratios), "sizes": len(sizes)})
+    return None
+
+
+def _run_entry_points(item, ctx, seed):
+    """
+    bootstrap_metric / bootstrap_ci hand the metric exactly the samples bootstrap_sample draws: observed through a
+    metric that reports the four strata, under the real seeded RNG, for every method x stratification, with the
+    option strings passed as literals, as equal strings built at run time and as NumPy strings.
+    """
+    from score_analysis import BootstrapConfig, Scores
+
+    hp, hn = item["sizes"]
+    ep, en = 40, 25
+    pos = [0.5 * i + 0.25 for i in range(hp)]
+    neg = [0.5 * i for i in range(hn)]
+    src = Scores(np.array(pos[::-1]), np.array(neg[::-1]), nb_easy_pos=ep, nb_easy_neg=en)
+
+    def strata(s_):
+        return np.array([len(s_.pos), int(s_.nb_easy_pos), len(s_.neg), int(s_.nb_easy_neg)], dtype=float)
+
+    for method in ("replacement", "single_pass", "dynamic"):
+        for strat in (None, "by_label"):
+            for mk, mval in ot.string_kinds(method):
+                for sk, sval in (ot.string_kinds(strat) if strat else [("none", None)]):
+                    if (mk, sk) not in (("literal", "literal"), ("literal", "none"), ("built-at-run-time", "built-at-run-time"), ("np.str_", "np.str_"),
+                                        ("built-at-run-time", "none"), ("literal", "built-at-run-time")):
+                        continue
+                    case = {"kind": "entry_points", "hard": [hp, hn], "easy": [ep, en], "method": method, "stratified": strat,
+                            "method_passed_as": mk, "stratified_passed_as": sk, "np_random_seed": seed}
+                    cfgobj = BootstrapConfig(nb_samples=3, sampling_method=mval, stratified_sampling=sval, bootstrap_method="quantile")
+                    eff = method
+                    if method == "dynamic":
+                        eff = "single_pass" if min(hp, hn) >= 100 else "replacement"
+                    ctx.state()
+                    rows = {}
+                    for entry in ("bootstrap_sample", "bootstrap_metric", "bootstrap_ci"):
+                        st = np.random.get_state()
+                        np.random.seed(seed + 11)
+                        try:
+                            if entry == "bootstrap_sample":
+                                ok, r = guarded(ctx, entry, case, lambda: np.stack([strata(src.bootstrap_sample(cfgobj)) for _ in range(3)]))
+                            elif entry == "bootstrap_metric":
+                                ok, r = guarded(ctx, entry, case, lambda: np.asarray(src.bootstrap_metric(strata, cfgobj), dtype=float))
+                            else:
+                                ok, r = guarded(ctx, entry, case, lambda: np.asarray(src.bootstrap_ci(strata, 0.5, cfgobj), dtype=float))
+                        finally:
+                            np.random.set_state(st)
+                        ctx.tick()
+                        ctx.nontrivial()
+                        if ok:
+                            rows[entry] = r
+                    for entry in ("bootstrap_sample", "bootstrap_metric"):
+                        if entry not in rows:
+                            continue
+                        for row in rows[entry].tolist():
+                            tot = sum(row)
+                            if eff == "replacement" and tot != hp + hn + ep + en:
+                                ctx.fail("replacement-preserves-total-count", dict(case, entry=entry), observed=row, expected=hp + hn + ep + en)
+                            if strat == "by_label" and eff == "replacement" and row != [hp, ep, hn, en]:
+                                ctx.fail("by-label-preserves-strata", dict(case, entry=entry), observed=row, expected=[hp, ep, hn, en])
+                            if strat == "by_label" and eff == "single_pass" and [row[1], row[3]] != [ep, en]:
+                                ctx.fail("by-label-preserves-strata", dict(case, entry=entry), observed=row, expected=["*", ep, "*", en])
+                    # an interval over samples that all preserve a stratum is degenerate at the source's count
+                    if "bootstrap_ci" in rows and strat == "by_label" and rows["bootstrap_ci"].shape == (4, 2):
+                        ci = rows["bootstrap_ci"].tolist()
+                        fixed = [0, 1, 2, 3] if eff == "replacement" else [1, 3]
+                        want = [hp, ep, hn, en]
+                        for c_ in fixed:
+                            if ci[c_] != [want[c_], want[c_]]:
+                                ctx.fail("by-label-preserves-strata", dict(case, entry="bootstrap_ci", component=c_), observed=ci[c_],
+                                         expected=[want[c_], want[c_]])
+                                break
+                    ctx.outcome((method, strat, mk, sk, str(rows.get("bootstrap_sample"))))
+    ctx.sample({"kind": "entry_points", "hard": [hp, hn], "easy": [ep, en]})
     return None
 
 
